@@ -174,6 +174,11 @@ class C19(Check):
                     break
             err_name = type(ctx.error).__name__ if ctx.error is not None else None
             died_step = probes.STATE["step"] if ctx.error is not None else None
+            if err_name == "LinAlgError" and first_gap is not None and died_step < first_gap[0]:
+                # the filter's covariance lost positive definiteness in an earlier step (a numerical abort): the run never got to the gap,
+                # nothing can be said about it (within a step ephemerides are imported before the filters predict, so a gap in the same step comes first)
+                cnt["numerical_abort_before_the_gap"] = cnt.get("numerical_abort_before_the_gap", 0) + 1
+                first_gap = None
             snaps = {sn["k"]: sn for sn in probes.of_kind("snap")}
             if err_name not in (None, "MissingEphemerisError", "LinAlgError") and (first_gap is None or died_step < first_gap[0] or died_step > first_gap[0]):
                 viol.append({"clause": "importing-run-aborted", "key": err_name,
